@@ -99,6 +99,13 @@ pub fn check_interval(run: &mut Run, c: MCell, depth: i32) {
         }
     };
     let (lo, hi) = (*kids.iter().min().unwrap(), *kids.iter().max().unwrap());
+    // the ends of the interval are descendants themselves
+    for w in [lo, hi] {
+        if decode(w).filter(|k| k.res == t).and_then(|k| parent_at(k, c.res)) != Some(c) {
+            run.violation("C20.interval", case(), format!("the descendants' id interval [{}, {}] ends at {} which is not a descendant at resolution {t}", hu(lo), hu(hi), hu(w)));
+            return;
+        }
+    }
     // the same-resolution neighbours just outside the subtree (both sides, also across quintant / face borders)
     let first = children_at(c, t)[0];
     let n = kids.len() as i64;
@@ -123,6 +130,11 @@ pub fn check_interval(run: &mut Run, c: MCell, depth: i32) {
             sorted.sort_unstable();
             let mut prev_hi: Option<u64> = None;
             for m in &sorted {
+                // only a real child is expanded further (a word that is not one may read as a much coarser cell)
+                if decode(*m).and_then(|k| parent_at(k, c.res)) != Some(c) {
+                    run.violation("C20.child_ids", case(), format!("cell_to_children returned {} which is not a child of the cell", hu(*m)));
+                    break;
+                }
                 if let Ok(sub) = children(*m, Some(t)) {
                     let (l, h) = (*sub.iter().min().unwrap(), *sub.iter().max().unwrap());
                     if let Some(p) = prev_hi {
@@ -199,6 +211,10 @@ fn run(ctx: &Ctx) -> Run {
         // (2) random pairs, straddling pairs, all resolutions
         let n = ctx.n(3_000_000, 60_000_000) / threads as u64;
         for _ in 0..n {
+            // error paths must leave nothing behind: now and then a few rejected calls precede the judged ones
+            if rng.below(64) == 0 {
+                crate::orc::failed_call_history(&mut rng);
+            }
             let res = 2 + rng.below(28) as i32;
             let depth = 1 + rng.below(4) as i32;
             match rng.below(4) {
